@@ -25,6 +25,10 @@ IMPLEMENTED = {
             'deterministic simulation: history simulator over type-building operations with GC as an injected event, FFI drops, address-reuse churn and gremlin finalizers that rebuild types during a collection; structural-description vs identity invariant after every operation',
             'Seeded search over histories of building, dropping and collecting derived ctypes through every construction route (Python parser, C parser, backend constructors, cdata), including rebuilding a type inside a finalizer while its predecessor is being collected; after every op all reachable ctypes must be pairwise distinct in structure.',
             'Only ctypes reachable from the harness slots are compared; aggregates/enums by identity; CPython weakref/GC ordering semantics.'),
+    'C29': ('H', 'exploration', 'DESIGN.md 3.8',
+            'deterministic simulation: history simulator over callback create/call/drop operations with GC as an injected event, bulk growth across closure-page boundaries, injected mmap failure at a growth step (build-time shim), creations that fail after the closure was taken, gremlin finalizers creating callbacks during collection; address-distinctness and own-function oracles',
+            'Seeded search over create/drop/call histories that cross several growth steps of the closure allocator and reuse freed closures, with resource faults placed inside growth; live addresses tracked through weak references must stay pairwise distinct and every call must run exactly its own function.',
+            'The closure free list is process state: a replay re-executes the runs that preceded the failing one in its worker (recorded in the replay file). Only live callbacks are invoked.'),
 }
 
 PENDING = {
